@@ -35,7 +35,14 @@ type Plain struct {
 	mu   sync.Mutex
 	recs map[string]*rec
 	Hook Hook
+	// CacheRecords: repeated Gets of a path hand out the SAME record object until the path is set again (a store with a
+	// record / metadata cache in front of it); its lazy loaders are re-run by every caller that asks
+	CacheRecords bool
+	cache        map[string]keyvalue.FileRecord
 }
+
+// DropCache forgets the cached record objects.
+func (p *Plain) DropCache() { p.mu.Lock(); p.cache = nil; p.mu.Unlock() }
 
 func NewPlain() *Plain { return &Plain{recs: map[string]*rec{}} }
 
@@ -56,9 +63,13 @@ func (p *Plain) Get(ctx context.Context, path string) (keyvalue.FileRecord, erro
 	if ok {
 		cp = *r
 	}
+	cached := p.cache[path]
 	p.mu.Unlock()
 	if !ok {
 		return nil, hackpadfs.ErrNotExist
+	}
+	if p.CacheRecords && cached != nil {
+		return cached, nil
 	}
 	var getData func() (blob.Blob, error)
 	var getDirNames func() ([]string, error)
@@ -78,7 +89,16 @@ func (p *Plain) Get(ctx context.Context, path string) (keyvalue.FileRecord, erro
 			return blob.NewBytes(append([]byte(nil), cp.data...)), nil
 		}
 	}
-	return keyvalue.NewBaseFileRecord(int64(len(cp.data)), cp.modTime, cp.mode, nil, getData, getDirNames), nil
+	out := keyvalue.NewBaseFileRecord(int64(len(cp.data)), cp.modTime, cp.mode, nil, getData, getDirNames)
+	if p.CacheRecords {
+		p.mu.Lock()
+		if p.cache == nil {
+			p.cache = map[string]keyvalue.FileRecord{}
+		}
+		p.cache[path] = out
+		p.mu.Unlock()
+	}
+	return out, nil
 }
 
 func (p *Plain) children(dir string) []string {
@@ -109,6 +129,7 @@ func (p *Plain) Set(ctx context.Context, path string, src keyvalue.FileRecord) e
 	if src == nil {
 		p.mu.Lock()
 		delete(p.recs, path)
+		delete(p.cache, path)
 		p.mu.Unlock()
 		return nil
 	}
@@ -122,6 +143,7 @@ func (p *Plain) Set(ctx context.Context, path string, src keyvalue.FileRecord) e
 	}
 	p.mu.Lock()
 	p.recs[path] = r
+	delete(p.cache, path)
 	p.mu.Unlock()
 	return nil
 }
